@@ -65,7 +65,7 @@ def evaluate(prog, cls, name, keep=(), extra_opaque=(), bind=None):
 
 def mcall(ev, selft, cls, name, *args, **kw):
   m = cls.find_method(name)
-  return Term('call', Term('bound', selft, m.qualname), (selft,) + tuple(args), tuple(kw.items()))
+  return util.repo_call(Term('bound', selft, m.qualname), (selft,) + tuple(args), kw)
 
 
 def flag_true(t, flag):
@@ -90,14 +90,14 @@ class Ref:
 
   def g(self, name, *args, **kw):
     m = self.gcls.find_method(name)
-    return Term('call', Term('bound', self.grid, m.qualname), (self.grid,) + tuple(args), tuple(kw.items()))
+    return util.repo_call(Term('bound', self.grid, m.qualname), (self.grid,) + tuple(args), kw)
 
   def gp(self, name):
     return A_(self.grid, name)
 
   def m(self, name, *args, **kw):
     mm = self.cls.find_method(name)
-    return Term('call', Term('bound', self.self, mm.qualname), (self.self,) + tuple(args), tuple(kw.items()))
+    return util.repo_call(Term('bound', self.self, mm.qualname), (self.self,) + tuple(args), kw)
 
   def mp(self, name):
     return A_(self.self, name)
@@ -366,10 +366,10 @@ def rule_diagnostic(chk, prog):
   grid, vert = A_(co, 'horizontal'), A_(co, 'vertical')
   gcls = prog.cls(f'{SH}.Grid')
   def g(name, *args, **kw):
-    return Term('call', Term('bound', grid, gcls.find_method(name).qualname), (grid,) + tuple(args), tuple(kw.items()))
+    return util.repo_call(Term('bound', grid, gcls.find_method(name).qualname), (grid,) + tuple(args), kw)
   for n in ('vorticity', 'divergence', 'temperature_variation', 'tracers'):
     chk.check(util.field(v, n) == g('to_nodal', A_(st, n)), rule, f'{site}: nodal `{n}` = to_nodal(state.{n})', sym.show(util.field(v, n))[:120], loc)
-  vec = Term('call', Term('func', f'dinosaur.{SH}.get_cos_lat_vector'), (A_(st, 'vorticity'), A_(st, 'divergence'), grid), (('clip', sym.FALSE),))
+  vec = util.repo_call(Term('func', f'dinosaur.{SH}.get_cos_lat_vector'), (A_(st, 'vorticity'), A_(st, 'divergence'), grid), (('clip', sym.FALSE),))
   chk.check(util.field(v, 'cos_lat_u') == g('to_nodal', vec), rule, f'{site}: cos_lat_u = to_nodal(get_cos_lat_vector(ζ, δ, grid, clip=False))', sym.show(util.field(v, 'cos_lat_u'))[:200], loc)
   glsp = g('to_nodal', g('cos_lat_grad', A_(st, 'log_surface_pressure'), clip=sym.FALSE))
   chk.check(util.field(v, 'cos_lat_grad_log_sp') == glsp, rule, f'{site}: cos_lat_grad_log_sp = to_nodal(cos_lat_grad(ln pₛ, clip=False))', sym.show(util.field(v, 'cos_lat_grad_log_sp'))[:200], loc)
@@ -436,7 +436,7 @@ def rule_shallow_water(chk, prog):
   chk.check(bb is not None and bb['state'] == st and bb['grid'] == grid, rule, f'{site}: nodal state of the input state on the equation grid', sym.show(nstate), loc)
   # outputs
   sp_ = [t for t in sym.walk(v) if match.is_ext_call(t, 'split')]
-  oksp = len(set(sp_)) == 1 and sp_[0].a[1][1] == Term('list', sym.const(2), sym.const(4)) and dict(sp_[0].a[2]).get('axis') == sym.const(0) \
+  oksp = len(set(sp_)) == 1 and sp_[0].a[1][1] == Term('list', sym.const(2), sym.const(4)) and util.call_kwargs(sp_[0]).get('axis') == sym.const(0) \
       and util.callee_name(sp_[0].a[1][0]) == 'to_modal' and util.call_args(sp_[0].a[1][0])[0] == cat
   chk.check(oksp, rule, f'{site}: (b, g, e) = split(to_modal(concatenate([b(2), g(2), e(1)])), [2, 4]) — same order in and out', sym.show(sp_[0], maxdepth=3)[:200] if sp_ else 'none', loc)
   if oksp:
